@@ -1,2 +1,197 @@
-import SSVerif.Model.AcmodBuf
-/-! placeholder while the proofs are being written -/
+import SSVerif.Proofs.AcmodDec
+/-!
+# C07 — decoding results do not depend on chunking or buffering mode
+
+Property theorems about the index model `SSVerif/Model/AcmodBuf.lean` of `acmod.c` (with the D8 repair),
+`feat_s2mfc2feat_live` and the driving loops of `decoder.c`.  The quantifiers:
+
+* `s0` — **any** decoder state left behind by earlier utterances (arbitrary contents of the cepstrum ring,
+  of the live feature window and of `feat_buf`, arbitrary `bufpos`, any `n_feat_alloc ≥ 1`), subject only to
+  the structural facts `WF0`;
+* `ops` — **any** list of API calls while the utterance is open: `decoder_process_*` with any `no_search`
+  flag and **any** list of front-end responses (the batch structure: how many cepstral frames each
+  `fe_process_*` call underneath yields, including 0, and whether samples remain), `decoder_hyp` /
+  `decoder_seg_iter`, `decoder_alignment` (partial result; rewinds and re-advances);
+* `tail` — whether `fe_end` has a pending frame; `post` — queries and alignment on the final result;
+* `win` — any dynamic-feature window size with `nMfc + 3·win + 1 ≤ LIVEBUFBLOCKSIZE`
+  (`C07_consts_ok`: true for every window size `feat_init` assigns);
+* `skip` — any data-dependent outcome of the "zero-energy" test of live CMN.
+
+Hypotheses, both facts about the front end / the utterance length that the property itself assumes:
+`hcmn` — the utterance is shorter than the CMN update window (`cmn->nframe` + frames offered ≤ `CMN_WIN_HWM`);
+`hfe` — `fe_end` emits the pending partial frame whenever a frame was emitted before (C06's contract; checked on
+every run of the correspondence harness).
+
+`M := sf.nextId` is the number of cepstral frames the front end delivered, `canon win M k` the window
+`c_clamp(k-win) … c_clamp(k+win)` with every frame normalised exactly once with the mean fixed at the start.
+-/
+namespace SSVerif.AcmodBuf
+open SSVerif.Generated
+
+/-- structural facts about the state a new utterance starts from (after `acmod_create`, any history) -/
+structure WF0 (s0 : St) : Prop where
+  nofault : s0.fault = none
+  grow : s0.growFeat = true
+  cepLen : s0.cepbuf.length = livebuf
+  cur : s0.curpos < livebuf
+  fbLen : s0.featBuf.length = s0.nFeatAlloc
+  alloc1 : 1 ≤ s0.nFeatAlloc
+  mfcLen : s0.mfcBuf.length = nMfc
+  mfcAlloc : s0.nMfcAlloc = nMfc
+
+theorem startUtt_open (win : Nat) (s0 : St) (h : WF0 s0) : Open win (startUtt s0) := by
+  have ha := h.alloc1
+  refine ⟨rfl, Or.inl ⟨⟨h.nofault, h.grow, h.cepLen, h.cur, h.fbLen, rfl, ?_, ?_, ?_, rfl⟩, rfl,
+    ⟨h.mfcLen, h.mfcAlloc, (by decide : (0 : Nat) < nMfc), (by decide : (0 : Nat) ≤ nMfc), rfl, ?_⟩, rfl⟩, ?_, ?_⟩
+  · show 0 + 0 = 0 - win; omega
+  · show 0 - win < s0.nFeatAlloc; omega
+  · intro k hk; omega
+  · intro i hi; exact absurd hi (Nat.not_lt_zero _)
+  · show SearchedOK (startUtt s0); unfold SearchedOK startUtt; rfl
+  · intro l hl; exact absurd hl (by simp [startUtt])
+
+/-- the state after `acmod_create` satisfies the structural facts -/
+theorem WF0_init (cmn0 : Nat) : WF0 (St.init cmn0) :=
+  ⟨rfl, rfl, by simp [St.init], (by decide : (0 : Nat) < livebuf), by simp [St.init], (by decide : 1 ≤ nMfc),
+    by simp [St.init], rfl⟩
+
+/-- the closed-utterance invariant holds for every run -/
+theorem runUtt_closed (win : Nat) (skip : Nat → Bool) (s0 : St) (ops post : List Op) (tail : Bool) (hwf : WF0 s0)
+    (hw : nMfc + 3 * win + 1 ≤ livebuf)
+    (hcmn : s0.cmnFrames + offeredOps ops + (if tail then 1 else 0) ≤ cmnWinHwm)
+    (hfe : tail = true ∨ (runOps true win skip (startUtt s0) ops).nextId = 0)
+    (hpost : ∀ op, op ∈ post → op.isProcess = false) :
+    Closed win (runUtt true win skip s0 ops tail post) := by
+  have hopen := startUtt_open win s0 hwf
+  obtain ⟨o1, o2⟩ := runOps_open win skip (by omega) ops (startUtt s0) hopen (by show s0.cmnFrames + _ ≤ _; omega)
+  have o2' : (runOps true win skip (startUtt s0) ops).cmnFrames ≤ s0.cmnFrames + offeredOps ops := o2
+  exact runOps_closed win skip post _ (decEnd_closed win skip _ tail o1 hfe (by omega) hw) hpost
+
+/-- **features_canonical.**  Whatever the batch structure, the buffering mode and the queries, the search is
+    handed, in order and each exactly once, the feature vectors of the frames `k = 0 … M-1`, and the k-th one is
+    computed from the window `c_clamp(k-win) … c_clamp(k+win)`, every cepstral frame having gone through live
+    CMN exactly once with the mean fixed at the start of the utterance — nothing else (no stale ring content,
+    no dependence on the call history or on the state left by earlier utterances). -/
+theorem C07_features_canonical (win : Nat) (skip : Nat → Bool) (s0 : St) (ops post : List Op) (tail : Bool) (hwf : WF0 s0)
+    (hw : nMfc + 3 * win + 1 ≤ livebuf)
+    (hcmn : s0.cmnFrames + offeredOps ops + (if tail then 1 else 0) ≤ cmnWinHwm)
+    (hfe : tail = true ∨ (runOps true win skip (startUtt s0) ops).nextId = 0)
+    (hpost : ∀ op, op ∈ post → op.isProcess = false) :
+    let sf := runUtt true win skip s0 ops tail post
+    sf.searched = (List.range sf.nextId).map fun k => (k, some (canon win sf.nextId k)) :=
+  (runUtt_closed win skip s0 ops post tail hwf hw hcmn hfe hpost).searched_eq
+
+/-- **frames_searched_const.**  The number of search steps is `M`, the number of cepstral frames the front end
+    delivered; nothing is left unsearched and `output_frame = M` in every case. -/
+theorem C07_frames_searched_const (win : Nat) (skip : Nat → Bool) (s0 : St) (ops post : List Op) (tail : Bool) (hwf : WF0 s0)
+    (hw : nMfc + 3 * win + 1 ≤ livebuf)
+    (hcmn : s0.cmnFrames + offeredOps ops + (if tail then 1 else 0) ≤ cmnWinHwm)
+    (hfe : tail = true ∨ (runOps true win skip (startUtt s0) ops).nextId = 0)
+    (hpost : ∀ op, op ∈ post → op.isProcess = false) :
+    let sf := runUtt true win skip s0 ops tail post
+    sf.searched.length = sf.nextId ∧ sf.outputFrame = sf.nextId ∧ sf.nFeatFrame = 0 := by
+  intro sf
+  have h : Closed win sf := runUtt_closed win skip s0 ops post tail hwf hw hcmn hfe hpost
+  have hc := h.core.cnt
+  have hn := h.nff
+  exact ⟨by rw [h.searched_eq]; simp, by omega, hn⟩
+
+/-- **chunking independence.**  Two decodes with the same number of delivered frames — any two call patterns,
+    any two histories before the utterance — hand the search the same sequence of feature windows. -/
+theorem C07_chunking_independent (win : Nat) (skip skip' : Nat → Bool) (s0 s0' : St) (ops ops' post post' : List Op)
+    (tail tail' : Bool) (hwf : WF0 s0) (hwf' : WF0 s0') (hw : nMfc + 3 * win + 1 ≤ livebuf)
+    (hcmn : s0.cmnFrames + offeredOps ops + (if tail then 1 else 0) ≤ cmnWinHwm)
+    (hcmn' : s0'.cmnFrames + offeredOps ops' + (if tail' then 1 else 0) ≤ cmnWinHwm)
+    (hfe : tail = true ∨ (runOps true win skip (startUtt s0) ops).nextId = 0)
+    (hfe' : tail' = true ∨ (runOps true win skip' (startUtt s0') ops').nextId = 0)
+    (hpost : ∀ op, op ∈ post → op.isProcess = false) (hpost' : ∀ op, op ∈ post' → op.isProcess = false)
+    (hM : (runUtt true win skip s0 ops tail post).nextId = (runUtt true win skip' s0' ops' tail' post').nextId) :
+    (runUtt true win skip s0 ops tail post).searched = (runUtt true win skip' s0' ops' tail' post').searched := by
+  rw [C07_features_canonical win skip s0 ops post tail hwf hw hcmn hfe hpost,
+    C07_features_canonical win skip' s0' ops' post' tail' hwf' hw hcmn' hfe' hpost', hM]
+
+/-- **alignment passes.**  Every `decoder_alignment` call (on a partial result or on the final one) re-reads, in
+    order, the canonical feature vectors of the frames below some `p ≤ M`, and (see `alignPass_spec`) puts every
+    counter back where it was. -/
+theorem C07_alignment_canonical (win : Nat) (skip : Nat → Bool) (s0 : St) (ops post : List Op) (tail : Bool) (hwf : WF0 s0)
+    (hw : nMfc + 3 * win + 1 ≤ livebuf)
+    (hcmn : s0.cmnFrames + offeredOps ops + (if tail then 1 else 0) ≤ cmnWinHwm)
+    (hfe : tail = true ∨ (runOps true win skip (startUtt s0) ops).nextId = 0)
+    (hpost : ∀ op, op ∈ post → op.isProcess = false) :
+    let sf := runUtt true win skip s0 ops tail post
+    ∀ l, l ∈ sf.aligned → ∃ p, p ≤ sf.nextId ∧ l = (List.range p).map fun k => (k, some (canon win sf.nextId k)) :=
+  (runUtt_closed win skip s0 ops post tail hwf hw hcmn hfe hpost).aligned_eq
+
+/-- **ring_safe, while the utterance is open.**  After every prefix of calls: no modelled buffer access was out
+    of range and none of the branches outside the model (fixed-size feature ring, wrap-around of `feat_buf`, live
+    buffer clamp, block special case, non-terminating loop) was taken (`fault = none`); the feature queue never
+    reaches the end of `feat_buf` (so it never wraps and `acmod_rewind` is always possible); every frame of the
+    cepstrum ring has been consumed; all ring indices are in range. -/
+theorem C07_ring_safe_open (win : Nat) (skip : Nat → Bool) (s0 : St) (ops : List Op) (hwf : WF0 s0)
+    (hw : nMfc + 2 * win + 1 ≤ livebuf) (hcmn : s0.cmnFrames + offeredOps ops ≤ cmnWinHwm) :
+    let s := runOps true win skip (startUtt s0) ops
+    s.fault = none ∧ s.featOutidx + s.nFeatFrame < s.nFeatAlloc ∧ s.featBuf.length = s.nFeatAlloc ∧
+      s.featOutidx = s.outputFrame ∧ s.nMfcFrame = 0 ∧ s.mfcOutidx < nMfc ∧ s.mfcBuf.length = nMfc ∧
+      s.curpos < livebuf ∧ s.cepbuf.length = livebuf ∧ s.growFeat = true ∧
+      (s.state = .started ∨ s.state = .processing) := by
+  intro s
+  have o1 : Open win s :=
+    (runOps_open win skip hw ops (startUtt s0) (startUtt_open win s0 hwf) (by show s0.cmnFrames + _ ≤ _; omega)).1
+  obtain ⟨c, hc, hm⟩ := o1.core
+  have h1 := hc.cnt
+  have h2 := hc.room
+  have h3 := hc.outIdx
+  exact ⟨hc.nofault, by omega, hc.fbLen, hc.outIdx, o1.mfc0, hm.out, hm.len, hc.cur, hc.cepLen, hc.grow, o1.state⟩
+
+/-- **ring_safe, after `decoder_end_utt`** and any queries on the final result. -/
+theorem C07_ring_safe (win : Nat) (skip : Nat → Bool) (s0 : St) (ops post : List Op) (tail : Bool) (hwf : WF0 s0)
+    (hw : nMfc + 3 * win + 1 ≤ livebuf)
+    (hcmn : s0.cmnFrames + offeredOps ops + (if tail then 1 else 0) ≤ cmnWinHwm)
+    (hfe : tail = true ∨ (runOps true win skip (startUtt s0) ops).nextId = 0)
+    (hpost : ∀ op, op ∈ post → op.isProcess = false) :
+    let sf := runUtt true win skip s0 ops tail post
+    sf.fault = none ∧ sf.nFeatFrame ≤ sf.nFeatAlloc ∧ sf.nextId < sf.nFeatAlloc ∧ sf.featBuf.length = sf.nFeatAlloc ∧
+      sf.featOutidx = sf.outputFrame ∧ sf.state = .ended := by
+  intro sf
+  have h : Closed win sf := runUtt_closed win skip s0 ops post tail hwf hw hcmn hfe hpost
+  have hn := h.nff
+  exact ⟨h.core.nofault, by omega, h.core.room, h.core.fbLen, h.core.outIdx, h.st⟩
+
+/-- the side condition on the window size holds for every value `feat_init` assigns, and the feature buffer grows
+    by default (regenerated constants; re-checked by `lake build` whenever they change) -/
+theorem C07_consts_ok : (∀ w, w ∈ featWindows → nMfc + 3 * w + 1 ≤ livebuf) ∧ growDefault = true ∧ cmnWin ≤ cmnWinHwm := by
+  decide
+
+/-! ## non-vacuity: concrete runs of the model -/
+
+/-- a 9-frame utterance (`win = 3`): a first call that yields no frame, 2 frames, a query, 6 buffered frames, a
+    partial alignment, the tail frame; the model's own run gives the canonical windows -/
+def exOps : List Op :=
+  [.process false [⟨0, false⟩], .process false [⟨2, true⟩, ⟨0, false⟩], .query, .process true [⟨6, false⟩], .align (some 1)]
+
+example : (runUtt true 3 (fun _ => false) (St.init 500) exOps true [.align (some 9)]).nextId = 9 := by decide +kernel
+
+example : (runUtt true 3 (fun _ => false) (St.init 500) exOps true [.align (some 9)]).searched.length = 9 := by
+  decide +kernel
+
+example : ((runUtt true 3 (fun _ => false) (St.init 500) exOps true [.align (some 9)]).searched.getD 0 (0, none)).2 =
+    some ([0, 0, 0, 0, 1, 2, 3].map fun i => some ⟨i, 1, false⟩) := by decide +kernel
+
+example : ((runUtt true 3 (fun _ => false) (St.init 500) exOps true [.align (some 9)]).searched.getD 8 (0, none)).2 =
+    some ([5, 6, 7, 8, 8, 8, 8].map fun i => some ⟨i, 1, false⟩) := by decide +kernel
+
+/-- the hypotheses of the theorems are met by that run -/
+example : WF0 (St.init 500) ∧ nMfc + 3 * 3 + 1 ≤ livebuf ∧
+    (St.init 500).cmnFrames + offeredOps exOps + (if true then 1 else 0) ≤ cmnWinHwm := ⟨WF0_init 500, by decide, by decide⟩
+
+/-- an utterance shorter than one analysis window: no frame before the end, one tail frame (STARTED → ENDED) -/
+example : (runUtt true 3 (fun _ => false) (St.init 500) [.process false [⟨0, false⟩]] true []).searched =
+    [(0, some ((List.replicate 7 0).map fun i => some ⟨i, 1, false⟩))] := by decide +kernel
+
+/-- **the pinned tree (D8) on the model**: the control flow without the repair (`fixD8 = false`) hands the search a
+    first window that contains three slots the utterance never wrote (stale content of the live buffer) — same
+    audio, first call shorter than a window -/
+example : ((runUtt false 3 (fun _ => false) (St.init 500) exOps true []).searched.getD 0 (0, none)).2 =
+    some ([none, none, none] ++ [0, 1, 2, 3].map fun i => some ⟨i, 1, false⟩) := by decide +kernel
+
+end SSVerif.AcmodBuf
